@@ -615,3 +615,9 @@ def h_bounds(h: H):
 
 
 register(Unit(P, "BOUNDS/_compute_column_bounds", h_bounds, functions=[f"{DO}:DataFileManager._compute_column_bounds"]))
+
+# ID-MAP looks bounds up under the TABLE schema's field ids while files are written with the ids of the schema given to the
+# append: sound only if an accepted schema argument has the table's ids (C11 SIG / ACCEPT-EQUIV, re-run here)
+from contracts import C11_appends as _c11  # noqa: E402
+register(Unit("C13", "ID-CONSISTENT/_schema_signature", _c11.h_signature, functions=["transaction:Transaction._schema_signature"], replay=None))
+register(Unit("C13", "ID-CONSISTENT/_validate_schema_against_table", _c11.h_validate, functions=["transaction:Transaction._validate_schema_against_table"], replay=None))
